@@ -29,6 +29,7 @@ type cfg struct {
 	// published (concurrently with those reads if ResumeConcurrent, else after them), then it drains
 	ResumeRead, ResumeMore int
 	ResumeConcurrent       bool
+	StallInit              bool // the stalled monitor's handler blocks inside OnInitialize (not in an event callback)
 	CloseStalled           bool // the stalled consumer gives up: it closes its subscription while the stream is running
 	Buf                    int  // model value of EventBufsiz for this scenario (0: Bufsiz)
 	Refilter               bool // after the stream: Refilter a stalled direct filtered subscription so that it emits more events than its buffer holds
@@ -88,6 +89,8 @@ type inst struct {
 	typedGot           *[]string
 	rootList, wantList string
 	clock              int64
+	initActive         bool
+	duringInit         []string
 	phase1             chan struct{} // closed after the first stream: slow consumers start their partial read
 	readDone           chan bool
 	pub1               int   // events published by the first stream
@@ -103,6 +106,25 @@ func (in *inst) handler(n *hx.Node) kcache.Handler {
 		} else if s != "init" {
 			in.acks <- n.Path
 		}
+	}
+	if stalled && in.c.StallInit {
+		// blocks inside OnInitialize: no other callback may run meanwhile (callbacks are serial, OnInitialize first)
+		ev := func(s string) {
+			if in.initActive {
+				in.duringInit = append(in.duringInit, s)
+			}
+			n.Calls = append(n.Calls, s)
+		}
+		return kcache.BuildHandler().
+			OnInitialize(func(l []metav1.Object) {
+				n.Calls = append(n.Calls, "init")
+				in.initActive = true
+				<-in.release
+				in.initActive = false
+			}).
+			OnCreate(func(o metav1.Object) { ev("create:" + hx.ObjString(o)) }).
+			OnUpdate(func(o metav1.Object) { ev("update:" + hx.ObjString(o)) }).
+			OnDelete(func(o metav1.Object) { ev("delete:" + hx.ObjString(o)) }).Create()
 	}
 	return kcache.BuildHandler().
 		OnInitialize(func(l []metav1.Object) { n.Calls = append(n.Calls, "init") }).
@@ -364,6 +386,9 @@ func (in *inst) check(r *vs.Result) []string {
 			}
 		}
 	})
+	if len(in.duringInit) > 0 {
+		msgs = append(msgs, fmt.Sprintf("monitor callbacks overlap a blocked OnInitialize | tree %s: while OnInitialize was blocked the handler received %v", specs(in.c.Tree), in.duringInit))
+	}
 	if in.typedGot != nil {
 		got := *in.typedGot
 		j := 0
@@ -523,6 +548,9 @@ func Property() runner.Property {
 				out = append(out, scenario(cfg{Name: tr.name + "/slow-concurrent", Tree: tr.tree, Stalled: st(tr.st), K: 3, ResumeRead: 1, ResumeMore: 2, ResumeConcurrent: true, Mode: "S2", Bound: 2}))
 				// a larger model buffer (4): overflow by one, read one, one more event must fit
 				out = append(out, scenario(cfg{Name: tr.name + "/slow", Tree: tr.tree, Stalled: st(tr.st), K: 5, Buf: 4, ResumeRead: 1, ResumeMore: 1, Paced: true, Mode: "S2", Bound: 1}))
+			}
+			for _, k := range []int{1, 3} {
+				out = append(out, scenario(cfg{Name: "mon(blocked-in-OnInitialize),sub", Tree: mon, Stalled: st("0:mon"), StallInit: true, K: k, Mode: "S2", Bound: 2}))
 			}
 			// a stalled consumer that gives up (closes) while the stream is running: the others lose nothing
 			out = append(out, scenario(cfg{Name: "sub,sub,sub/stalled-one-closes", Tree: []hx.Spec{sp("sub", 0), sp("sub", 0), sp("sub", 0)}, Stalled: st("0:sub"), CloseStalled: true, K: 3, Mode: "S2", Bound: 2}))
